@@ -1,8 +1,10 @@
 (* Properties_C08.v -- C08: links are transparent, non-owning, and always terminate.
    Exported statements about coq/Links.v (the faithful transcription of cgio_find_file, ADFI_chase_link,
    ADF_Get_Node_ID, ADF_Link / ADF_Get_Link_Path, ADFI_link_add / ADFI_close_file and of ADFH's open_link / parse_path)
-   over worlds of TreeDB files.  Positive theorems hold for EVERY world / state / link graph; each *_refuted theorem
-   is a witness, replayed on the library by checks/C08.py, of something the current code gets wrong.
+   over worlds of TreeDB files.  [Cur] is the code in /repo now, [Old] the code before the repairs 909ac4d, 8281ca0,
+   9d19299, fff8c32.  Positive theorems hold for EVERY world / state / link graph; a *_refuted theorem is a witness of
+   something the CURRENT code gets wrong (a known finding), an *_old_refuted theorem a witness of what Old got wrong
+   (kept as history; the same input is a regression case in corpus/C08).
    Only statements closed by [exact]; Print Assumptions under each. *)
 From Coq Require Import ZArith List Bool.
 From CgnsV Require Import ListX TreeDB TreeDBProofs Links LinksProofs.
@@ -17,11 +19,29 @@ Theorem C08_loop_at_most_101_turns : forall ch d e n m depth s lk,
 Proof. exact loop_fuel_irrelevant. Qed.
 Print Assumptions C08_loop_at_most_101_turns.
 
-(* for every world and every link graph: if the nested resolutions (links met inside stored paths) return, the
-   resolution returns -- with or without the cache *)
-Theorem C08_terminates : forall uc f d e, no_stack (chase uc f d e) -> no_stack (chase uc (S f) d e).
+(* if the nested resolutions return, the resolution returns (either version, cached or not) *)
+Theorem C08_resolution_returns_if_nested_do : forall v uc f d e, no_stack (chase v uc f d e) -> no_stack (chase v uc (S f) d e).
 Proof. exact chase_returns. Qed.
+Print Assumptions C08_resolution_returns_if_nested_do.
+
+(* TERMINATION at full strength for the current code: for EVERY world, link graph, state and nesting budget a
+   resolution never runs out of stack -- the mutual recursion ADFI_chase_link <-> ADF_Get_Node_ID is cut by the
+   nesting counter (at most NEST_LIMIT = 100 activations, each at most 101 turns of the loop) *)
+Theorem C08_terminates : forall uc d e f, no_stack (chase Cur uc f d e).
+Proof. exact cur_never_out_of_stack. Qed.
 Print Assumptions C08_terminates.
+
+(* the link /L -> "/L/x" (its stored path passes through itself): LINKS_TOO_DEEP now, whatever the budget ... *)
+Theorem C08_path_through_own_link_fails_cleanly : forall uc f s, r_cache s = None ->
+  chase Cur uc f w_nest empty_env s (fA, 1) = (s, Err ETooDeep).
+Proof. exact (nested_cycle_out_of_budget Cur). Qed.
+Print Assumptions C08_path_through_own_link_fails_cleanly.
+
+(* ... where the old code exhausted every recursion budget (the C stack overflowed) *)
+Theorem C08_terminates_old_refuted : forall uc fuel s, r_cache s = None ->
+  chase Old uc fuel w_nest empty_env s (fA, 1) = (s, Err EStack).
+Proof. exact (nested_cycle_out_of_budget Old). Qed.
+Print Assumptions C08_terminates_old_refuted.
 
 (* LINKS_TOO_DEEP exactly when the chain exceeds the limit: k <= 100 links ending in a node resolve to it ... *)
 Theorem C08_chain_within_limit_resolves : forall ch d e k s i s' t s'',
@@ -36,7 +56,7 @@ Theorem C08_chain_beyond_limit_fails : forall ch d e s i s' t,
 Proof. exact chain_too_deep. Qed.
 Print Assumptions C08_chain_beyond_limit_fails.
 
-(* ... and LINKS_TOO_DEEP has no other source than the counter (or a nested resolution reporting it) *)
+(* ... and the loop reports LINKS_TOO_DEEP for no other reason than its counter (or a nested resolution reporting it) *)
 Theorem C08_too_deep_only_beyond_limit : forall ch d e n depth s lk s',
   chase_loop ch d e n depth s lk = (s', Err ETooDeep) -> 0 <= depth <= 100 ->
   (exists k t, hops ch d e (S k) s lk = Some (s', t) /\ depth + Z.of_nat (S k) = 101) \/
@@ -44,23 +64,16 @@ Theorem C08_too_deep_only_beyond_limit : forall ch d e n depth s lk s',
 Proof. exact too_deep_exact. Qed.
 Print Assumptions C08_too_deep_only_beyond_limit.
 
-(* full strength ("every resolution returns") is FALSE of the current code: ADFI_chase_link and ADF_Get_Node_ID call
-   each other without any counter.  The link /L -> "/L/x" exhausts every recursion budget (the C stack overflows). *)
-Theorem C08_terminates_refuted : forall uc fuel s, r_cache s = None ->
-  chase uc fuel w_nest empty_env s (fA, 1) = (s, Err EStack).
-Proof. exact nested_cycle_never_returns. Qed.
-Print Assumptions C08_terminates_refuted.
-
 (* ---- transparency ------------------------------------------------------------------------------------------------- *)
-Theorem C08_transparent : forall uc fuel d e s i what s' v,
-  cache_sane d s -> adf_get uc fuel d e s i what = (s', AVal v) -> what <> 0 -> what <> 4 -> what <> 5 ->
-  exists l, chase uc fuel d e s i = (s', Ok l) /\ nonlink d l /\ v = node_attr d l what /\ cache_sane d s'.
+Theorem C08_transparent : forall v uc fuel d e s i what s' val,
+  cache_sane d s -> adf_get v uc fuel d e s i what = (s', AVal val) -> what <> 0 -> what <> 4 -> what <> 5 ->
+  exists l, chase v uc fuel d e s i = (s', Ok l) /\ nonlink d l /\ val = node_attr d l what /\ cache_sane d s'.
 Proof. exact adf_transparent. Qed.
 Print Assumptions C08_transparent.
 
-Theorem C08_direct_read_is_the_node : forall uc f d e s l what,
+Theorem C08_direct_read_is_the_node : forall v uc f d e s l what,
   cache_sane d s -> nonlink d l -> what <> 0 -> what <> 4 -> what <> 5 ->
-  adf_get uc (S f) d e s l what = (s, AVal (node_attr d l what)).
+  adf_get v uc (S f) d e s l what = (s, AVal (node_attr d l what)).
 Proof. exact adf_direct. Qed.
 Print Assumptions C08_direct_read_is_the_node.
 
@@ -72,20 +85,20 @@ Print Assumptions C08_link_query.
 Theorem C08_link_query_same_file : forall path, adf_get_link (adf_link_data [] path) = ([], path).
 Proof. exact link_query_same_file. Qed.
 Print Assumptions C08_link_query_same_file.
-(* ... unless the file name contains the payload separator '>' *)
+(* ... unless the file name contains the payload separator '>' (known finding adf-link-file-name-containing-separator) *)
 Theorem C08_link_query_refuted : exists file path,
   adf_file_ok file = true /\ adf_get_link (adf_link_data file path) <> (file, path).
 Proof. exact link_query_separator_refuted. Qed.
 Print Assumptions C08_link_query_refuted.
 
 (* ---- non-owning ---------------------------------------------------------------------------------------------------- *)
-Theorem C08_non_owning : forall s f p u s' df r,
+Theorem C08_non_owning : forall v s f p u s' df r,
   disk_get (a_disk s) f = Some df -> find_node (d_tab df) u = Some r -> is_link r = true -> children (d_tab df) u = [] ->
-  adf_mutate s f (ODelete p u) = (s', ROk) ->
+  adf_mutate v s f (ODelete p u) = (s', ROk) ->
   a_cache s' = None /\
   (forall g, g <> f -> disk_get (a_disk s') g = disk_get (a_disk s) g) /\
   (exists df', disk_get (a_disk s') f = Some df' /\
-     (forall v r0, v <> u -> find_node (d_tab df) v = Some r0 -> find_node (d_tab df') v = Some r0) /\
+     (forall w r0, w <> u -> find_node (d_tab df) w = Some r0 -> find_node (d_tab df') w = Some r0) /\
      find_node (d_tab df') u = None /\
      (forall q, children (d_tab df') q = filter (fun x => negb (n_uid x =? u)) (children (d_tab df) q))).
 Proof. exact delete_link_non_owning. Qed.
@@ -100,88 +113,87 @@ Theorem C08_link_creation_frame : forall pol t p u nm file path t',
 Proof. exact link_frame. Qed.
 Print Assumptions C08_link_creation_frame.
 
-Theorem C08_other_files_untouched : forall s f o s' r, adf_mutate s f o = (s', r) ->
+Theorem C08_other_files_untouched : forall v s f o s' r, adf_mutate v s f o = (s', r) ->
   forall g, g <> f -> disk_get (a_disk s') g = disk_get (a_disk s) g.
 Proof. exact mutate_other_files. Qed.
 Print Assumptions C08_other_files_untouched.
 
 (* ---- dangling ------------------------------------------------------------------------------------------------------ *)
-Theorem C08_dangling_file : forall uc f d e s i r file path,
+Theorem C08_dangling_file : forall v uc f d e s i r file path,
   node_at d i = Some r -> adf_link_of r = Some (file, path) -> nonempty file = true ->
   (forall p, find_file d e (fst i) file 1 (ADF_FILENAME_LENGTH + 1) <> FOk p) -> cache_misses s i ->
-  chase uc (S f) d e s i = (s, Err ELinkFile).
+  chase v uc (S f) d e s i = (s, Err ELinkFile).
 Proof. exact dangling_file. Qed.
 Print Assumptions C08_dangling_file.
 
-Theorem C08_dangling_path : forall uc f d e s i r file path s0 root s1,
+Theorem C08_dangling_path : forall v uc f d e s i r file path s0 root s1,
   node_at d i = Some r -> adf_link_of r = Some (file, path) ->
   (if nonempty file then exists p, find_file d e (fst i) file 1 (ADF_FILENAME_LENGTH + 1) = FOk p /\
                                   s0 = log_add s (fst i) p /\ root = (p, root_uid)
    else s0 = s /\ root = root_of i) ->
-  get_node_id (chase uc f d e) d s0 root path = (s1, Err ENotFound) -> cache_misses s i ->
-  chase uc (S f) d e s i = (s1, Err ELinkTarget).
+  get_node_id (chase v uc f d e) d s0 root path = (s1, Err ENotFound) -> cache_misses s i ->
+  chase v uc (S f) d e s i = (s1, Err ELinkTarget).
 Proof. exact dangling_path. Qed.
 Print Assumptions C08_dangling_path.
 
-Theorem C08_dangling_read_is_error : forall uc fuel d e s i what s' x, what <> 0 -> what <> 4 -> what <> 5 ->
-  chase uc fuel d e s i = (s', Err x) -> node_at d i <> None -> adf_get uc fuel d e s i what = (s', AErr x).
+Theorem C08_dangling_read_is_error : forall v uc fuel d e s i what s' x, what <> 0 -> what <> 4 -> what <> 5 ->
+  chase v uc fuel d e s i = (s', Err x) -> node_at d i <> None -> adf_get v uc fuel d e s i what = (s', AErr x).
 Proof. exact dangling_read_is_error. Qed.
 Print Assumptions C08_dangling_read_is_error.
 
-Theorem C08_reads_change_no_file : forall fuel s i what, a_disk (fst (adf_read fuel s i what)) = a_disk s.
+Theorem C08_reads_change_no_file : forall v fuel s i what, a_disk (fst (adf_read v fuel s i what)) = a_disk s.
 Proof. exact read_changes_no_file. Qed.
 Print Assumptions C08_reads_change_no_file.
 
-Theorem C08_failed_mutation_changes_nothing : forall s f o s', adf_mutate s f o = (s', RErr) -> s' = s.
+Theorem C08_failed_mutation_changes_nothing : forall v s f o s', adf_mutate v s f o = (s', RErr) -> s' = s.
 Proof. exact mutate_failure_changes_nothing. Qed.
 Print Assumptions C08_failed_mutation_changes_nothing.
 
 (* ---- the one-entry cache ------------------------------------------------------------------------------------------- *)
-(* "the cached pair equals what full resolution returns" is FALSE of the current code: /L -> /A/B, read through L,
-   rename B to C, read through L again *)
-Theorem C08_cache_refuted :
-  snd (adf_read 8 stale_session (fA, 3) 1) = AVal (RBytes [76; 98]) /\
-  resolve 8 (a_disk stale_session) (a_env stale_session) (fA, 3) = Err ELinkTarget.
-Proof. exact cache_refuted. Qed.
-Print Assumptions C08_cache_refuted.
-
-(* what IS true of the cache: for every world, from a state whose cache entry equals full resolution, the cached
-   resolution keeps it so and -- unless it runs out of recursion budget -- answers what full (cache-free) resolution
-   answers once its budget suffices *)
-Theorem C08_cache_sound : forall d e f, sim d e (chase true f d e).
+(* for every world, from a state whose cache entry equals full resolution, the cached resolution keeps it so and --
+   unless it runs out of nesting budget -- answers what full (cache-free) resolution answers once its budget suffices *)
+Theorem C08_cache_sound : forall v d e f, sim v d e (chase v true f d e).
 Proof. exact chase_sim. Qed.
 Print Assumptions C08_cache_sound.
 
 (* full resolution is a function of the world alone, and a larger budget only turns "out of budget" into an answer *)
-Theorem C08_resolution_state_independent : forall d e F, obl false (U d e F) (U d e F).
+Theorem C08_resolution_state_independent : forall v d e F, obl v false (U v d e F) (U v d e F).
 Proof. exact resolve_state_independent. Qed.
 Print Assumptions C08_resolution_state_independent.
-Theorem C08_resolution_budget_monotone : forall d e F, obl true (U d e F) (U d e (S F)).
+Theorem C08_resolution_budget_monotone : forall v d e F, obl v true (U v d e F) (U v d e (S F)).
 Proof. exact resolve_budget_monotone. Qed.
 Print Assumptions C08_resolution_budget_monotone.
 
 (* transparency at full strength under that hypothesis: the node read is THE target *)
-Theorem C08_transparent_target : forall fuel d e s i what s' v,
-  cache_sane d s -> coherent d e s -> adf_get true fuel d e s i what = (s', AVal v) -> what <> 0 -> what <> 4 -> what <> 5 ->
-  exists l, resolves_to d e i (Ok l) /\ nonlink d l /\ v = node_attr d l what /\ cache_sane d s' /\ coherent d e s'.
+Theorem C08_transparent_target : forall v fuel d e s i what s' val,
+  cache_sane d s -> coherent v d e s -> adf_get v true fuel d e s i what = (s', AVal val) -> what <> 0 -> what <> 4 -> what <> 5 ->
+  exists l, resolves_to v d e i (Ok l) /\ nonlink d l /\ val = node_attr d l what /\ cache_sane d s' /\ coherent v d e s'.
 Proof. exact cached_read_is_full_resolution. Qed.
 Print Assumptions C08_transparent_target.
 
-(* every mutation except the rename keeps the cache coherent (accepted or refused, cleared or not) ... *)
-Theorem C08_mutations_keep_cache_coherent : forall s f o s' r, (forall p u nm, o <> ORename p u nm) ->
-  acoherent s -> adf_mutate s f o = (s', r) -> acoherent s'.
-Proof. exact mutate_keeps_coherent. Qed.
+(* EVERY mutation of the current code keeps the cache coherent -- create, link, delete, move, RENAME, relabel,
+   re-dimension, any write, any query, accepted or refused, cleared or not ... *)
+Theorem C08_mutations_keep_cache_coherent : forall s f o s' r,
+  acoherent Cur s -> adf_mutate Cur s f o = (s', r) -> acoherent Cur s'.
+Proof. exact mutations_keep_cache_coherent. Qed.
 Print Assumptions C08_mutations_keep_cache_coherent.
 
-(* ... hence along EVERY history of reads, look-ups and mutations without a rename (search environment fixed), whatever
-   is read through any link is an attribute of the node full resolution reaches: rename is the only hole *)
-Theorem C08_cache_coherent_without_rename : forall fuel s0 l i what v,
-  a_cache s0 = None -> Forall ev_ok l ->
-  let s := run_evs fuel s0 l in
-  file_open s (fst i) = true -> snd (adf_read fuel s i what) = AVal v -> what <> 0 -> what <> 4 -> what <> 5 ->
-  exists t, resolves_to (a_disk s) (a_env s) i (Ok t) /\ nonlink (a_disk s) t /\ v = node_attr (a_disk s) t what.
-Proof. exact cache_coherent_without_rename. Qed.
-Print Assumptions C08_cache_coherent_without_rename.
+(* ... hence CACHE COHERENCE: along EVERY history of reads, look-ups and mutations from an empty cache (search
+   environment fixed), whatever is read through any link is an attribute of the node full resolution reaches *)
+Theorem C08_cache_coherent : forall fuel s0 l i what val,
+  a_cache s0 = None ->
+  let s := run_evs Cur fuel s0 l in
+  file_open s (fst i) = true -> snd (adf_read Cur fuel s i what) = AVal val -> what <> 0 -> what <> 4 -> what <> 5 ->
+  exists t, resolves_to Cur (a_disk s) (a_env s) i (Ok t) /\ nonlink (a_disk s) t /\ val = node_attr (a_disk s) t what.
+Proof. exact cache_coherent. Qed.
+Print Assumptions C08_cache_coherent.
+
+(* history: before 9d19299 the rename left the cached answer in place (/L -> /A/B, read, rename B to C, read) *)
+Theorem C08_cache_old_refuted :
+  snd (adf_read Old 8 (stale_session Old) (fA, 3) 1) = AVal (RBytes [76; 98]) /\
+  resolve Old 8 (a_disk (stale_session Old)) (a_env (stale_session Old)) (fA, 3) = Err ELinkTarget.
+Proof. exact cache_old_refuted. Qed.
+Print Assumptions C08_cache_old_refuted.
 
 (* ---- file search --------------------------------------------------------------------------------------------------- *)
 Theorem C08_search_order : forall d e parent fn ft maxlen p, find_file d e parent fn ft maxlen = FOk p ->
@@ -211,71 +223,103 @@ Proof. exact candidates_relative. Qed.
 Print Assumptions C08_search_candidates_relative.
 
 (* ---- implicitly opened files ---------------------------------------------------------------------------------------- *)
-Theorem C08_close_refuted :
-  exists sl', slot_close 8 three_files 1 = Some (sl', true) /\
+(* THE REPAIR (909ac4d), for every state: while a file has another reference -- a second handle, a link from another
+   open file -- closing it drops that one reference and nothing else: no file it links to is touched or closed *)
+Theorem C08_close_keeps_linked_files : forall fuel sl k x,
+  0 <= k < lenZ sl -> x = nthZ sl k free_slot -> 1 < sl_use x ->
+  slot_close Cur (S fuel) sl k = Some (updZ sl k (mkSl (sl_name x) (sl_use x - 1) (sl_links x)), false).
+Proof. exact close_keeps_linked_files. Qed.
+Print Assumptions C08_close_keeps_linked_files.
+
+(* history: Old closed B although A, still open, listed it (finding #9) ... *)
+Theorem C08_close_old_refuted :
+  exists sl', slot_close Old 8 three_files 1 = Some (sl', true) /\
     sl_use (nthZ sl' 0 free_slot) = 1 /\ In 2 (sl_links (nthZ sl' 0 free_slot)) /\
     sl_use (nthZ three_files 2 free_slot) = 1 /\ sl_use (nthZ sl' 2 free_slot) = 0.
-Proof. exact close_refuted. Qed.
-Print Assumptions C08_close_refuted.
+Proof. exact close_old_refuted. Qed.
+Print Assumptions C08_close_old_refuted.
 
-Theorem C08_close_recursion_refuted : forall fuel,
-  slot_close fuel mutual_files 0 = None /\ slot_close fuel mutual_files 1 = None.
-Proof. exact close_recursion_refuted. Qed.
-Print Assumptions C08_close_recursion_refuted.
+(* ... and recursed for every budget on two files that link to each other *)
+Theorem C08_close_recursion_old_refuted : forall fuel,
+  slot_close Old fuel mutual_files 0 = None /\ slot_close Old fuel mutual_files 1 = None.
+Proof. exact close_recursion_old_refuted. Qed.
+Print Assumptions C08_close_recursion_old_refuted.
 
 (* ---- ADFH ------------------------------------------------------------------------------------------------------------ *)
-Theorem C08_h5_transparent_one_hop : forall d i l what, what <> 0 -> what <> 4 -> what <> 5 ->
-  node_at d i <> None -> h5_open_link d i = Ok l -> nonlink d l -> h5_get d i what = AVal (node_attr d l what).
-Proof. exact h5_transparent_one_hop. Qed.
-Print Assumptions C08_h5_transparent_one_hop.
+(* current ADFH: what is read through a node that resolves is the attribute of a node that is not a link *)
+Theorem C08_h5_transparent : forall d i what val, what <> 0 -> what <> 4 -> what <> 5 ->
+  h5_get Cur d i what = AVal val ->
+  exists l, h5_open_link Cur d i = Ok l /\ nonlink d l /\ val = node_attr d l what.
+Proof. exact h5_transparent. Qed.
+Print Assumptions C08_h5_transparent.
 
-Theorem C08_h5_chain_refuted :
-  h5_get w_chain (fH, 3) 1 = AVal (RBytes []) /\ h5_get w_chain (fH, 3) 2 = AVal (RBytes s_LK) /\
-  h5_get w_chain (fH, 3) 7 = AVal (RInt 0) /\
-  resolve 8 w_chain empty_env (fH, 3) = Ok (fH, 1) /\ node_attr w_chain (fH, 1) 1 = RBytes [76; 98].
-Proof. exact h5_chain_refuted. Qed.
-Print Assumptions C08_h5_chain_refuted.
+(* its loop is bounded by its own counter, and a resolution always returns an answer or an error of the library *)
+Theorem C08_h5_loop_bounded : forall d n m depth l, 0 <= depth <= 99 ->
+  (Z.to_nat (100 - depth) <= n)%nat -> (Z.to_nat (100 - depth) <= m)%nat -> h5_follow n depth d l = h5_follow m depth d l.
+Proof. exact h5_follow_fuel_irrelevant. Qed.
+Print Assumptions C08_h5_loop_bounded.
+Theorem C08_h5_terminates : forall d i, h5_open_link Cur d i <> Err EStack.
+Proof. exact h5_open_link_returns. Qed.
+Print Assumptions C08_h5_terminates.
 
-Theorem C08_h5_cycle_refuted :
-  h5_get w_self (fH, 1) 1 = AVal (RBytes []) /\ resolve 8 w_self empty_env (fH, 1) = Err ETooDeep.
-Proof. exact h5_cycle_refuted. Qed.
-Print Assumptions C08_h5_cycle_refuted.
+(* history: before fff8c32 a link to a link answered with the intermediate node (empty label, LK, no children, ok) *)
+Theorem C08_h5_chain_old_refuted :
+  h5_get Old w_chain (fH, 3) 1 = AVal (RBytes []) /\ h5_get Old w_chain (fH, 3) 2 = AVal (RBytes s_LK) /\
+  h5_get Old w_chain (fH, 3) 7 = AVal (RInt 0) /\
+  resolve Cur 100 w_chain empty_env (fH, 3) = Ok (fH, 1) /\ node_attr w_chain (fH, 1) 1 = RBytes [76; 98].
+Proof. exact h5_chain_old_refuted. Qed.
+Print Assumptions C08_h5_chain_old_refuted.
+Theorem C08_h5_cycle_old_refuted :
+  h5_get Old w_self (fH, 1) 1 = AVal (RBytes []) /\ resolve Cur 100 w_self empty_env (fH, 1) = Err ETooDeep.
+Proof. exact h5_cycle_old_refuted. Qed.
+Print Assumptions C08_h5_cycle_old_refuted.
 
+(* STILL WRONG (known findings): a stored path through a link, and the search path *)
 Theorem C08_h5_path_through_link_refuted :
-  h5_get w_via (fH, 4) 1 = AErr ELinkTarget /\ resolve 8 w_via empty_env (fH, 4) = Ok (fH, 2).
+  h5_get Cur w_via (fH, 4) 1 = AErr ELinkTarget /\ resolve Cur 100 w_via empty_env (fH, 4) = Ok (fH, 2).
 Proof. exact h5_via_refuted. Qed.
 Print Assumptions C08_h5_path_through_link_refuted.
-
 Theorem C08_h5_search_path_refuted :
   find_file w_path e_path [47; 109; 47; 97] [98] 2 1025 = FOk [47; 112; 47; 98] /\
-  h5_get w_path ([47; 109; 47; 97], 1) 1 = AErr ELinkTarget.
+  h5_get Cur w_path ([47; 109; 47; 97], 1) 1 = AErr ELinkTarget.
 Proof. exact h5_search_refuted. Qed.
 Print Assumptions C08_h5_search_path_refuted.
 
-(* ---- non-vacuity ------------------------------------------------------------------------------------------------------ *)
-Example C08_chain_100_resolves : snd (chase true 3 (chain_world 100) empty_env rs0 (fA, 101)) = Ok (fA, 1).
+(* ---- non-vacuity / the repaired witnesses on the current code ---------------------------------------------------------- *)
+Example C08_chain_100_resolves : snd (chase Cur true 100 (chain_world 100) empty_env rs0 (fA, 101)) = Ok (fA, 1).
 Proof. exact chain_100_resolves. Qed.
-Example C08_chain_101_too_deep : snd (chase true 3 (chain_world 101) empty_env rs0 (fA, 102)) = Err ETooDeep.
+Example C08_chain_101_too_deep : snd (chase Cur true 100 (chain_world 101) empty_env rs0 (fA, 102)) = Err ETooDeep.
 Proof. exact chain_101_too_deep. Qed.
 Example C08_chain_101_hops : exists s' t,
-  hops (chase true 2 (chain_world 101) empty_env) (chain_world 101) empty_env 101 rs0 (fA, 102) = Some (s', t).
+  hops (chase Cur true 99 (chain_world 101) empty_env) (chain_world 101) empty_env 101 rs0 (fA, 102) = Some (s', t).
 Proof. exact chain_101_hops. Qed.
-Example C08_cycle_too_deep : snd (chase true 3 w_cycle2 empty_env rs0 (fA, 1)) = Err ETooDeep.
+Example C08_cycle_too_deep : snd (chase Cur true 100 w_cycle2 empty_env rs0 (fA, 1)) = Err ETooDeep.
 Proof. exact cycle_too_deep. Qed.
-Example C08_cache_cleared_by_delete :
-  let s1 := s_of (adf_open ast0 fA true) in
-  let s2 := s_of (adf_mutate s1 fA (OCreate 0 1 bA)) in
-  let s3 := s_of (adf_mutate s2 fA (OCreate 1 2 bB)) in
-  let s5 := s_of (adf_mutate s3 fA (OLink 0 3 [76] [] [47; 65; 47; 66])) in
-  let s6 := fst (adf_read 8 s5 (fA, 3) 1) in
-  let s7 := s_of (adf_mutate s6 fA (ODelete 1 2)) in
-  a_cache s6 = Some ((fA, 3), (fA, 2)) /\ a_cache s7 = None /\ snd (adf_read 8 s7 (fA, 3) 1) = AErr ELinkTarget.
-Proof. exact cache_cleared_by_delete. Qed.
-Example C08_history_without_rename :
+Example C08_h5_chain_100_resolves : h5_open_link Cur (h5_chain_world 100) (fH, 101) = Ok (fH, 1).
+Proof. exact h5_chain_100_resolves. Qed.
+Example C08_h5_chain_101_too_deep : h5_open_link Cur (h5_chain_world 101) (fH, 102) = Err ETooDeep.
+Proof. exact h5_chain_101_too_deep. Qed.
+Example C08_h5_chain_now_followed : h5_get Cur w_chain (fH, 3) 1 = AVal (RBytes [76; 98]) /\ h5_open_link Cur w_chain (fH, 3) = Ok (fH, 1).
+Proof. exact h5_chain_cur. Qed.
+Example C08_h5_cycle_now_fails : h5_get Cur w_self (fH, 1) 1 = AErr ETooDeep.
+Proof. exact h5_cycle_cur. Qed.
+Example C08_cache_cleared_by_rename :
+  a_cache (stale_session Cur) = None /\ snd (adf_read Cur 100 (stale_session Cur) (fA, 3) 1) = AErr ELinkTarget.
+Proof. exact cache_cleared_by_rename. Qed.
+Example C08_history_with_rename :
   let h := [EMut fA (OCreate 0 1 bA); EMut fA (OCreate 1 2 bB); EMut fA (OLabel 2 [76; 98]);
-            EMut fA (OLink 0 3 [76] [] [47; 65; 47; 66]); ERead (fA, 3) 1; EMut fA (OCreate 1 4 bC); EMut fA (OLabel 2 [120])] in
-  Forall ev_ok h /\
-  snd (adf_read 8 (run_evs 8 (s_of (adf_open ast0 fA true)) h) (fA, 3) 1) = AVal (RBytes [120]).
-Proof. exact history_without_rename. Qed.
+            EMut fA (OLink 0 3 [76] [] [47; 65; 47; 66]); ERead (fA, 3) 1; EMut fA (ORename 1 2 bC);
+            EMut fA (OCreate 1 4 bB); EMut fA (OLabel 4 [120])] in
+  snd (adf_read Cur 100 (run_evs Cur 100 (s_of (adf_open ast0 fA true)) h) (fA, 3) 1) = AVal (RBytes [120]).
+Proof. exact history_with_rename. Qed.
+Example C08_close_now_keeps_B :
+  exists sl' sl'', slot_close Cur 8 three_files 1 = Some (sl', true) /\
+    sl_use (nthZ sl' 0 free_slot) = 1 /\ sl_use (nthZ sl' 2 free_slot) = 1 /\
+    slot_close Cur 8 sl' 0 = Some (sl'', true) /\ sl_use (nthZ sl'' 2 free_slot) = 0.
+Proof. exact close_cur_three_files. Qed.
+Example C08_close_mutual_now_returns :
+  exists sl', slot_close Cur 1 mutual_files 0 = Some (sl', false) /\
+    sl_use (nthZ sl' 0 free_slot) = 1 /\ sl_use (nthZ sl' 1 free_slot) = 1.
+Proof. exact close_cur_mutual. Qed.
 Example C08_cache_sane_initially : forall d, cache_sane d rs0.
 Proof. exact cache_sane_initially. Qed.
